@@ -680,7 +680,7 @@ func ruleOwnGoroutine(c *Ctx, r *R, op ownedParam, key string, uses []ownUse) {
 	}
 	// no way out of the function that skips the spawn: an early return (a fast path for an already-cancelled context, …)
 	// hands back something whose Close does not reach the stream, and nobody ever closes it
-	if ret := returnSkippingSpawn(op.fn, goInstr); ret != nil {
+	if ret := returnSkippingSpawn(op.fn, goInstr, op); ret != nil {
 		r.violated(key, retPos(ret), funcShort(op.fn)+" can return without having started the goroutine that owns and closes "+op.param.Name()+": on that path the stream is never closed")
 		return
 	}
@@ -1209,7 +1209,7 @@ func ruleOwnHeld(c *Ctx, r *R, op ownedParam, key string, u ownUse) {
 
 // returnSkippingSpawn: a return of fn that is not preceded, on every path, by the spawn (for a spawn inside a loop: by the
 // loop's condition block - a loop over zero elements owns nothing).
-func returnSkippingSpawn(fn *ssa.Function, spawn ssa.Instruction) *ssa.Return {
+func returnSkippingSpawn(fn *ssa.Function, spawn ssa.Instruction, op ownedParam) *ssa.Return {
 	if spawn == nil || spawn.Parent() != fn {
 		return nil
 	}
@@ -1235,6 +1235,22 @@ func returnSkippingSpawn(fn *ssa.Function, spawn ssa.Instruction) *ssa.Return {
 		}
 		if b == anchor || anchor.Dominates(b) {
 			continue
+		}
+		// a slice of streams: returning early when it is empty leaves nothing unowned
+		if op.kind == 2 {
+			empty := false
+			for _, g := range guardsOf(b) {
+				if cf, ok := g.asCmp(); ok && isLenOf(cf.x, op.param) {
+					if k, isK := resolveVal(cf.y).(*ssa.Const); isK && k.Value != nil {
+						if (cf.op == token.EQL && k.Int64() == 0) || (cf.op == token.LEQ && k.Int64() == 0) || (cf.op == token.LSS && k.Int64() == 1) {
+							empty = true
+						}
+					}
+				}
+			}
+			if empty {
+				continue
+			}
 		}
 		if bad == nil {
 			bad = ret
